@@ -33,7 +33,10 @@ def run(project, rep):
     rep.run(P.x_rules, project, rep)
     rep.rule("V-R3", "absent children are None: Aggregate.__init__ sets every non-list spec attribute from the keyword of the same name, None when absent, through the descriptor (F-R2)")
     rep.run(F.f_r2_init, schema, rep)
-    rep.run(Z.z_r4_conversion, project, rep)
+    rep.run(Z.z_r4_conversion, project, rep, utc_label=True)
     rep.run(Z.z_r5_offset_sign, project, rep)
     rep.run(Z.z_r6_carrier_date, project, rep)
     rep.run(Z.z_r1_grammar, project, rep)
+    from .. import rules_header as H
+    rep.rule("V-R10", "character data is decoded with the codec the header's CHARSET names (H-R2)")
+    rep.run(H.h_r2, project, rep)
